@@ -783,6 +783,38 @@ def rule_r15(ctx):
         raise AnalysisBroken("only %d resizes of buffers with a wait list found" % n)
 
 
+# ---------------------------------------------------------------------------
+# R16: an iteration over an id map starts at cursor 0
+
+def rule_r16(ctx):
+    r = ctx.rule("C18.R16", "T3", "an iteration over an id map starts at the beginning: every local whose address is passed to nni_id_visit as the "
+                 "cursor is set to 0 on every path before the first call (the documented protocol of nng_id_visit) -- from an "
+                 "uninitialised cursor the walk starts anywhere, or past the table, and entries are not visited", floor=2)
+    prog = ctx.prog
+    n = 0
+    for f in prog.functions:
+        if f.cfg_failed or f.file.endswith("_test.c") or f.name in ("nng_id_visit", "nni_id_visit"):
+            continue
+        for c in f.calls("nni_id_visit"):
+            a = c.node["args"]
+            cur = strip_addr(f.expand(a[3])) if len(a) > 3 and a[3] is not None else None
+            if cur is None or cur.get("k") != "var" or cur["n"] in [p_["n"] for p_ in f.params]:
+                continue        # the caller's cursor (a parameter or a field): not this function's to initialise
+            n += 1
+            zero = set()
+            for pos, rhs in G.var_defs(f, cur["n"]):
+                if rhs is not None and const_of(rhs) == 0:
+                    zero.add(pos)
+            if zero and f.dominated_by((c.b, c.i), blocked=lambda b, i, e: (b, i) in zero):
+                r.ob(f, "cursor %s is 0 before the walk at line %s" % (cur["n"], c.line))
+            else:
+                ctx.fail(r, f, "nni_id_visit with a cursor that was not set to 0", c.line,
+                         "%s passes &%s to nni_id_visit (line %s) and no assignment of 0 to it dominates the call: the walk starts "
+                         "at whatever the stack held, entries are skipped or none is visited" % (f.name, cur["n"], c.line))
+    if n < 2:
+        raise AnalysisBroken("only %d walks over id maps with a local cursor found" % n)
+
+
 def run(ctx):
     ctx.guard(rule_r1)
     ctx.guard(rule_r2)
@@ -796,6 +828,7 @@ def run(ctx):
     ctx.guard(rule_r12)
     ctx.guard(rule_r14)
     ctx.guard(rule_r15)
+    ctx.guard(rule_r16)
     from . import c08
     ctx.guard(c08.rule_r6)        # the pair sockets' receive buffer stays first-in first-out
     for rr in ctx.rules:
